@@ -59,17 +59,17 @@ CLAIMS = {
         technique="Lean 4 proof (decide +kernel tables from YAML + general costing lemma) + exhaustive correspondence",
     ),
     "C03": dict(
-        text="Theorem scan_iff_raw (all kernels, by induction over the scanned suffix): the forward scan of find_depending emits "
+        text="Theorems scan_iff_raw and edges_iff_raw (all kernels with strictly increasing lines): the forward scan of find_depending emits "
              "exactly the read-after-write positions (reads t, no earlier write of t) with the producer's tag; no_edge_past_kill, "
              "findDepending_forward (edges point forward), edge_weight_spec, flags_ignored_without_option. Tie: register tables from "
              "the parser sources (C12) + create_DG of the real code vs DG.create edge by edge with weights; oracle: declarative "
              "Spec.rawEdges vs the implementation's edges.",
-        design="5/C03", note=COMMON_NOTE + "Modelled not verified: networkx path search (replaced by the model's own enumeration), the parsers and the role assignment (taken from the implementation per kernel: the model consumes the implementation's semantic operands, latencies and register changes). Graph-level corollary edges(create k) <-> Spec.rawAt is checked by the oracle, not yet a theorem.",
+        design="5/C03", note=COMMON_NOTE + "Modelled not verified: networkx path search (replaced by the model's own enumeration), the parsers and the role assignment (taken from the implementation per kernel: the model consumes the implementation's semantic operands, latencies and register changes). Graph level: edges_iff_raw, create_edges_subset (last emission wins), edges_forward, create_iff_raw (kernels without stores).",
         technique="Lean 4 proof (induction over the scan) + differential correspondence of the dependency graph",
     ),
     "C04": dict(
         text="The pinned code violates the property (known finding cp-underreport). Proved: the negative result on a witness "
-             "(cp_underreports, replayed on the real code) and cp_no_deps for all kernels; the Lean model of the code as it is "
+             "(cp_underreports, replayed on the real code), cp_no_deps, longestChain_is_max (the Spec DP is the maximum over all chains), cp_never_overreports (every candidate of the model totals <= the longest chain): the defect is one-sided; the Lean model of the code as it is "
              "(cpCandidates) is tied to get_critical_path by correspondence, and Spec.longestChain is evaluated on every kernel: "
              "over-reporting, broken chains, sub-single-instruction values and deviations from the model are reported.",
         category="translation_validation",
@@ -77,28 +77,33 @@ CLAIMS = {
         technique="Lean 4 model + negative theorem on a witness; differential correspondence and Spec oracle",
     ),
     "C05": dict(
-        text="Theorems for all kernels and line numbers: offset_ok (the second copy never collides with a kernel line), map_back, "
-             "double_disjoint, sortPairs_perm. The cycle characterisation itself is decided per kernel by the independent Lean oracle "
-             "Spec.cycles over the dependency relation of two concatenated iterations and by correspondence with LCD.lcd, including "
-             "kernels starting at lines ~1000 and ~5000.",
-        design="5/C05", note=COMMON_NOTE + "Modelled not verified: networkx path search (replaced by the model's own enumeration), the parsers and the role assignment (taken from the implementation per kernel: the model consumes the implementation's semantic operands, latencies and register changes). lcd_sound_complete (reported = Spec.cycles for all kernels) is not yet a theorem: checked by oracle + correspondence.",
-        technique="Lean 4 proof (offset arithmetic) + differential correspondence + independent cycle enumeration",
+        text="Theorems for all kernels with strictly increasing lines: offset_ok/map_back/double_disjoint; pathsFrom_iff (the search "
+             "returns exactly the simple paths), fuel_suffices, lcd_paths_exact; emissions_forward, path_increasing, winding1_sorted "
+             "(a path crosses the iteration boundary once; sorted modulo the offset it is ascending); entry_latency, post_dedup, "
+             "post_represents; dg_local; lcd_sound / lcd_complete (the reported entries are exactly the winding-number-1 cycles of "
+             "the periodic stream dependency relation, with members and latency sum); lcd_key_collision_free, lcd_reported_once. Tie: "
+             "get_loopcarried_dependencies vs LCD.lcd incl. start lines ~1000/~5000; oracle: independent Spec.cycles over the "
+             "relation of two iterations built by the real create_DG; LCD column and summary figure of the real report.",
+        design="5/C05", note=COMMON_NOTE + "Modelled not verified: networkx path search, parsers and role assignment (taken from the implementation per kernel). Not proved: the link between IsStreamCycle and the executable oracle Spec.cycles (both are evaluated on every kernel).",
+        technique="Lean 4 proof (path-search soundness/completeness, winding argument) + differential correspondence + independent cycle enumeration",
     ),
     "C06": dict(
         text="Theorems about the model of is_memload/_update_reg_changes for all registers, displacements and tracked increments: "
              "same_location_edge, untouched_iff_disp_eq, no_edge_when_disp_differs / regs_differ / unknown / scale_differs / "
-             "base_vs_nobase, store_ends_search (all suffixes), update_add_add. Tie: create_DG on generated store/load kernels of both "
+             "base_vs_nobase, store_ends_search (all suffixes), update_add_add; tracks_preserved, tracking_sound and store_load_edge_sound (every store->load emission is address-exact under a concrete register-valuation semantics, for every start valuation and execution). Tie: create_DG on generated store/load kernels of both "
              "ISAs vs the model; oracle: the generator's own symbolic bookkeeping (edge iff same location, with the forwarding weight).",
         design="5/C06", note=COMMON_NOTE + "Modelled not verified: networkx path search (replaced by the model's own enumeration), the parsers and the role assignment (taken from the implementation per kernel: the model consumes the implementation's semantic operands, latencies and register changes). Not covered: a load that overwrites its own address register; pre-indexed loads directly aliasing the store.",
         technique="Lean 4 proof (decision logic of the address comparison) + differential correspondence + symbolic oracle",
     ),
     "C14": dict(
-        text="Metamorphic check on the real code for every rotation offset (cycles mapped to instruction identities, latencies, "
-             "maximum) plus correspondence of every rotated kernel with the Lean model LCD.lcd; proved so far only the structural "
-             "facts about rotation (permutation, composition, renumbering). The central invariance theorem is not proved yet.",
-        category="translation_validation",
-        design="5/C14", note=COMMON_NOTE + "Modelled not verified: networkx path search (replaced by the model's own enumeration), the parsers and the role assignment (taken from the implementation per kernel: the model consumes the implementation's semantic operands, latencies and register changes). lcd_rotation_invariant is stated (TODO-FULL) but not proved; claimed below proof level.",
-        technique="Lean 4 model + metamorphic differential validation on implementation and model",
+        text="Theorem lcd_rotation_invariant (all kernels with strictly increasing lines, all rotation offsets r <= |k|): every entry "
+             "reported for k has a counterpart reported for rotate r k with the same member instructions (identified by "
+             "j -> (j+r) mod |k|), the same edge latencies and the same total latency, and conversely; built on stream locality "
+             "(scanTarget_append, scanMem_append, window_suffices_all, stream_local), streamDep_rotate' and the C05 characterisation "
+             "lcd_sound/lcd_complete. Tie: every rotated kernel through the real code vs LCD.lcd; oracle: the metamorphic relation on "
+             "the real code for every rotation offset (cycles mapped to instruction identities).",
+        design="5/C14", note=COMMON_NOTE + "Modelled not verified: networkx path search, parsers and role assignment (taken from the implementation per kernel). Not proved: equality of the *number* of entries (set-level correspondence and uniqueness per member set are).",
+        technique="Lean 4 proof (stream locality + rotation of the periodic dependency relation) + metamorphic differential validation",
     ),
     "C17": dict(
         text="Cache state machine (Load/Edit/CrashDuringWrite/ConcurrentLoad/ForeignCache/NewProcess over companion, home and runtime "
@@ -160,6 +165,41 @@ CLAIMS = {
         note=COMMON_NOTE + "Not modelled: detect_ISA, str(float) repr, header/symbol-map blocks (tied by text comparison only); totals >= 1000 in a "
              "4-wide column are read as tokens.",
         technique="Lean 4 proof (formatter/parser round trip by induction over cells) + byte-exact differential correspondence",
+    ),
+    "C09": dict(
+        text="Hand-written model of the language the AT&T grammar accepts; theorems for all files and all lines of the AST domain: "
+             "parseFile_lines (one parsed line per non-blank line, in order, numbered index+1+start, verbatim text), "
+             "classify_exclusive, parseNat_renderNat / parseInt_renderInt (decimal and hex, any case, leading zeros), "
+             "number/register/memory_any_blanks, operand_roundtrip, x86_roundtrip (0-4 operands, all layouts incl. tabs), "
+             "expandTabs_relayout; gen_* theorems tie every hard-wired literal and character class to the parser source, "
+             "grammar_unchanged compares a digest of the constructed pyparsing grammar. Tie/oracle: rendered random ASTs with random "
+             "layout through ParserX86ATT vs the model and vs the AST (needs no model); malformed stream informational.",
+        design="5/C09 + notes/C09.md",
+        note=COMMON_NOTE + "Modelled not verified: pyparsing itself. grammar_unchanged is a digest: a grammar rewritten to the same language "
+             "breaks it and ends in no-failing-input-found.",
+        technique="Lean 4 proof (lexer/parser round trip by induction over tokens and operands) + differential correspondence",
+    ),
+    "C16": dict(
+        text="Theorems for all kernels, worker counts n >= 1 (incl. n > klen) and arrival orders: partition_covers / ordered / "
+             "index_unique (the slices are disjoint, ordered and concatenate to the kernel), post_perm_invariant (any permutation of "
+             "the arriving paths gives the same dictionary, under the decidable SumByKey predicate evaluated on every real run), "
+             "post_sound/complete/mono, parallel_eq_sequential, worker_count_irrelevant. Partition expressions compiled from the "
+             "Python AST. Tie: real multi-process runs with patched cpu_count and seeded per-worker delays vs the sequential search "
+             "and the model; repeated CLI runs byte-identical.",
+        design="5/C16 + notes/C16.md",
+        note=COMMON_NOTE + "Partial by nature: process creation, the Manager proxy and delivery of every batch are runtime behaviour sampled by the "
+             "correspondence; injectivity of the '-'.join key is trusted.",
+        technique="Lean 4 proof (partition arithmetic, permutation invariance) + real-process correspondence with controlled schedules",
+    ),
+    "C19": dict(
+        text="Abstract poll loop with clock; theorems for any timeout, clock and kill point: partial_subset / partial_post_subdict (the "
+             "reported dictionary is a sub-dictionary of the untimed one with equal latencies), complete_if_in_time, "
+             "complete_eq_sequential, flag_iff_cut (repaired loop), old_flag_spurious (witness for the unrepaired loop), exit_bound, "
+             "poll_terminates. Tie: real processes with timeouts {0,1,2,generous,-1} on kernel_x86_long_LCD.s and generated kernels "
+             "(wall time bound, warning iff cut, subset with equal latencies, no child left, CP/TP unaffected) + virtual-clock runs.",
+        design="5/C19 + notes/C19.md",
+        note=COMMON_NOTE + "Partial by nature: wall-clock bounds, SIGKILL and reaping are runtime; the model cannot exhibit a hung join.",
+        technique="Lean 4 proof (state machine of the poll loop) + real-process correspondence with real and virtual clocks",
     ),
 }
 
